@@ -240,8 +240,12 @@ pub fn removed_spans(sd: &StackD, cell: &CellIn, children: &[ChildD], mode: Mode
             }
             let mut k = 0usize;
             for (kind, start, width) in layer.period(p, true) {
-                for b in &blocked {
-                    out.push((li, (start, width), (b.0.max(0), b.1.min(span)), true));
+                // (signal tracks only: a rail shared by two periods is legitimately drawn by the period an instance does
+                // not touch)
+                if kind == Kind::Sig {
+                    for b in &blocked {
+                        out.push((li, (start, width), (b.0.max(0), b.1.min(span)), true));
+                    }
                 }
                 if kind == Kind::Sig {
                     let g = p * nsig + k;
